@@ -1,6 +1,6 @@
 """property id -> units and reporting metadata (single source for MANIFEST.json)"""
 from units import (specificity, best, fragments, static_list, hashing, vptrs, resolve, generator, handlers,
-                   virtual_ptr, deferred, slots, install)
+                   virtual_ptr, deferred, slots, install, best_proof)
 
 A_TABLES = ('compiler::build_dispatch_tables (grouping of classes by applicability mask, stride products, recursion order, '
             'v-table entry filling) is NOT under contract (std::map<dynamic_bitset,...>, recursion over containers): '
@@ -30,15 +30,15 @@ T_SHAPES = ('partial evaluator instantiating the resolve / handler templates per
 
 PROPS = {
     'C01': {
-        'units': [specificity.jobs, best.jobs, fragments.jobs, hashing.jobs, vptrs.jobs, resolve.jobs, slots.jobs, install.jobs],
+        'units': [specificity.jobs, best.jobs, best_proof.jobs, fragments.jobs, hashing.jobs, vptrs.jobs, resolve.jobs, slots.jobs, install.jobs],
         'level': 'proof',
         'technique': 'CBMC/DFCC function + loop contracts on extracted is_more_specific; ' + T_SHAPES +
-                     ' for method::resolve*; contracts on the v-table pointer lookups; bounded CBMC on best(), the cell step and slot allocation',
+                     ' for method::resolve*; contracts on the v-table pointer lookups; loop-boundary decomposition proof of best(); bounded CBMC on the cell step, install_gv and slot allocation',
         'level_text': 'The documented ordering (is_more_specific) is proved for every class graph and arity <= 16. For every signature shape over '
                       '{virtual_, virtual_ptr, non-virtual} up to length 4 (thorough: 5) and every facet set, the real resolve templates - instantiated '
                       'by a partial evaluator - are proved to return exactly the cell selected by the groups of the virtual arguments, given the installed '
-                      'layout. dynamic_vptr / publish_vptrs (vector with and without hash, map) deliver the dynamic class\'s v-table pointer. best(), the '
-                      'cell-filling step and slot allocation are checked bounded.',
+                      'layout. dynamic_vptr / publish_vptrs (vector with and without hash, map) deliver the dynamic class\'s v-table pointer. best() is proved for any number of candidates (inductive obligations over a '
+                      'Skolem vector); the cell-filling step, install_gv and slot allocation are checked bounded.',
         'level_note': 'that update builds dispatch tables satisfying I_table (build_dispatch_tables) is assumed; install_gv (I_layout) is bounded only; '
                       'bounded parts are not proofs; STL semantics trusted',
         'design_ref': 'DESIGN.md section 6 C01',
@@ -59,14 +59,15 @@ PROPS = {
         'assumptions': [],
     },
     'C03': {
-        'units': [specificity.jobs, best.jobs, fragments.jobs],
+        'units': [specificity.jobs, best.jobs, best_proof.jobs, fragments.jobs],
         'level': 'proof',
         'technique': 'CBMC/DFCC function + loop contracts on extracted is_base / is_more_specific (unbounded class universe); '
-                     'bounded CBMC on extracted best() and the next-selection fragment',
+                     'loop-boundary decomposition proof of best() (any number of candidates) cross-checked by a bounded run; bounded CBMC on the next-selection fragment',
         'level_text': 'is_base and is_more_specific (real bodies, extracted each run) are proved against the statement\'s '
                       'definitions of "strictly more general" and "more specific" for all class graphs (uninterpreted cov) and arity <= 16 by loop '
-                      'invariants; best() and the fragment of build_dispatch_tables that selects and stores next are checked '
-                      'bounded (<= 4/5 candidates, <= 3/4 definitions, all relations, all orders, stale prior values of next)',
+                      'invariants; best() is proved against P1-P4 for any number of candidates (inductive obligations per loop segment, Skolem vector) and cross-checked '
+                      'bounded (<= 4/5 candidates, all orders); the fragment of build_dispatch_tables that selects and stores next is checked '
+                      'bounded (<= 3/4 definitions, all relations, stale prior values of next)',
         'level_note': 'bounded parts are not proofs; std::vector / <algorithm> semantics trusted; that update reaches the fragment for every method '
                       'and that macros.hpp passes the right next variable to add_function is not covered',
         'design_ref': 'DESIGN.md section 6 C03',
@@ -106,12 +107,12 @@ PROPS = {
         'assumptions': [],
     },
     'C06': {
-        'units': [best.jobs, specificity.jobs, slots.jobs],
+        'units': [best.jobs, best_proof.jobs, specificity.jobs, slots.jobs],
         'level': 'proof',
-        'technique': 'lemma over best()\'s contract (outcome is a function of the candidate set), purity contracts of the comparators, bounded CBMC on best() over all '
-                     'candidate orders and on slot allocation over all class registration orders',
-        'level_text': 'Order can reach dispatch through best()\'s incremental elimination and through slot / group numbering. best() is checked for every order of <= 4/5 candidates '
-                      'against postconditions that only mention the candidate set; a lemma proves that any two results satisfying them agree on no-definition / definition / '
+        'technique': 'proof of best() against postconditions that mention only the candidate set + lemma (outcome is a function of that set), purity contracts of the comparators, '
+                     'bounded CBMC on slot allocation over all class registration orders',
+        'level_text': 'Order can reach dispatch through best()\'s incremental elimination and through slot / group numbering. best() is proved (any number of candidates, any order) '
+                      'against postconditions that only mention the candidate set, and cross-checked for every order of <= 4/5 candidates; a lemma proves that any two results satisfying them agree on no-definition / definition / '
                       'ambiguous and on the winner. is_more_specific / is_base are proved to be pure functions of their arguments. Slot allocation is checked for every '
                       'registration order of the classes (every DAG) for the uniqueness C04 needs.',
         'level_note': 'that different group numberings yield the same cell contents needs the unproved table construction; method and definition order inside '
